@@ -650,7 +650,11 @@ func features(ts []Target, descentDeviates bool) map[string]bool {
 					}
 				}
 			case 's':
-				m["slice-bounds"] = true
+				// [:] (start 0, no end, step 1) selects every index, which is what the matcher does
+				full := (len(f.Sl) < 1 || f.Sl[0] == 0) && (len(f.Sl) < 2 || f.Sl[1] == maxEnd) && (len(f.Sl) < 3 || f.Sl[2] == 1)
+				if !full {
+					m["slice-bounds"] = true
+				}
 			case 'f':
 				m["filter-first-only"] = true
 			case 'd':
